@@ -33,7 +33,9 @@ def sig_of_reject(rej):
         site = msg.split(" @ ")[-1] if " @ " in msg else ""
         site = re.sub(r":\d+$", "", site)
         what = re.sub(r"\d+", "N", msg.split(" @ ")[0])[:60]
-        return f"load_result:{res}:{site}:{what}"
+        sets = re.findall(r"\{([^}]*)\}", rest)
+        must = sets[0].replace('"', "").replace(" ", "") if sets else ""
+        return f"load_result:{res}:{site}:{what}" + (f":must={must}" if must else "")
     return kind
 
 
@@ -62,6 +64,10 @@ FIELDS = {
 }
 
 
+C15_REASONS = {"depth", "pixel_ratio", "layer_type", "blend_mode", "cel_type", "anim_direction", "bits_per_tile", "fixed_gamma", "icc_profile",
+               "tileset_not_embedded"}
+
+
 def relevant_sig(pid, sig, fields=None):
     """Route a TLC verdict to the property it concerns. Returns the (filtered) signature or None."""
     allowed = fields if fields is not None else FIELDS.get(pid)
@@ -72,8 +78,14 @@ def relevant_sig(pid, sig, fields=None):
         parts = sig.split(":")
         fs = [f for f in parts[1].split(",") if f]
         if fs == ["panics"]:
-            # a panic in one of the three cel routes also concerns C19 (the routes must denote the same cel)
-            if pid == "C19" and re.search(r"at=[^:]*(frame\(\)\.layer\(\)|layer\(\)\.frame\(\)|cel\(\))", sig):
+            # an accessor that panics instead of returning its value also concerns the property that says what the value is
+            m = re.search(r":at=([^:]*)", sig)
+            ats = set(m.group(1).split(",")) if m else set()
+            owners = {"C19": {"frame().layer()", "layer().frame()", "cel()"}, "C02": {"frame.image"}, "C06": {"cel.image"},
+                      "C08": {"tilemap()", "tilemap.dims", "tilemap.tile", "tilemap.image", "tileset.image", "tileset.tile_image"},
+                      "C09": {"layer.is_visible"}, "C01": {"layers", "tags", "slices", "palette", "external_files", "tilesets", "layers.iter",
+                                                         "layer_by_name", "tag_by_name", "frame.duration", "frame.id", "Debug"}}
+            if pid in owners and ats & owners[pid]:
                 return sig
             return sig if "panics" in allowed else None
         keep = [f for f in fs if f in allowed]
@@ -88,7 +100,17 @@ def relevant_sig(pid, sig, fields=None):
             return sig if "crash" in allowed or (res in ("abort", "killed") and "memory_bound" in allowed) else None
         # "ok": a file the specification says must fail was accepted; "err:*": a well-formed file was refused
         tag = "load_result_ok" if res == "ok" else "load_result_err"
-        return sig if tag in allowed else None
+        if tag not in allowed:
+            return None
+        if tag == "load_result_ok":
+            # an accepted must-fail file: C15 owns the unsupported-feature reasons, C11 the palette reason
+            m = re.search(r":must=([^:]*)", sig)
+            reasons = set(m.group(1).split(",")) if m else set()
+            if pid == "C15" and reasons and not (reasons & C15_REASONS):
+                return None
+            if pid == "C11" and reasons and "palette_incomplete" not in reasons:
+                return None
+        return sig
     return sig if kind in allowed else None
 
 
@@ -180,7 +202,10 @@ def c01(rep, work, tier, seed):
     res["outcomes"][0] += resb["outcomes"][0]
     tot = mc_load_stage(rep, work, b, tier)
     res["outcomes"][0] += tot[0]
-    rep.final = dict(rule="every chunk program up to length 3 (quick) / 4 (thorough) over MC_Load's alphabet enumerated by TLC and replayed; "
+    resp = predicted_faults_stage(rep, work, b, tier, seed)
+    res["outcomes"][0] += resp["outcomes"][0]
+    rep.final = dict(rule="single-field boundary-value faults whose program TLC decodes from the patched bytes (AseParse!Decode) and which are still "
+                          "well-formed must load with exactly the decoded values; every chunk program up to length 3 (quick) / 4 (thorough) over MC_Load's alphabet enumerated by TLC and replayed; "
                           "random/boundary well-formed sprite programs (G3 'struct') and the repository's real Aseprite files (independent decoder -> program; "
                           "the library loads the original bytes); a case is non-trivial when the specification "
                           "classifies it well-formed (outcome ok) and its full observation is compared field by field by TLC",
@@ -394,6 +419,26 @@ def c10(rep, work, tier, seed):
                      trusted=TRUSTED, exhaustive=True)
 
 
+def palette_programs_stage(rep, work, b, tier):
+    """MC_Palette's programs (palette chunk sequences x indexed pixel vectors, incl. pixels in palette holes) replayed and validated."""
+    k = 2 if tier == "quick" else 3
+    out, states = mc_run(rep, work, "MC_Palette", {"MaxChunks": k, "MaxPixels": 2}, ["PaletteInv", "Export"], workers=8)
+    menu = [json.loads(m) for m in extract_json_prints(out, "MENU")][0]
+    def progs():
+        for i, d in enumerate(map(json.loads, extract_json_prints(out, "PROG"))):
+            if not d["enforced"]:
+                continue
+            chunks = [menu[j - 1] for j in d["seq"]] + [{"k": "layer", "flags": 1, "name": [76]}]
+            if d["px"]:
+                chunks.append({"k": "cel", "layer": 0, "ctype": 2, "w": len(d["px"]), "h": 1, "px": [[v] for v in d["px"]]})
+            yield {"id": f"pal-{i}", "mode": "full", "meta": {"gen": "g1", "desc": d},
+                   "prog": {"hdr": {"w": 2, "h": 1, "depth": 8, "tidx": 0, "speed": 100}, "frames": [{"dur": 100, "chunks": chunks}]}}
+    cases = work.path("pal.ndjson")
+    write_cases(cases, progs())
+    res = stage_cases(rep, work, b, cases, "palette-sequences")
+    return res, cases, k
+
+
 def c11(rep, work, tier, seed):
     b = build("dev")
     k = 2 if tier == "quick" else 3
@@ -419,8 +464,8 @@ def c11(rep, work, tier, seed):
     if res["outcomes"][1] == 0:
         rep.error("no palette program was classified must-fail: the missing-index rule was not exercised")
     rep.cov["distinct_nontrivial"] = res["outcomes"][0] + res["outcomes"][1]
-    rep.final = dict(rule=f"all sequences of <= {k} palette chunks from a 7-entry menu (new ranges, legacy packets, cumulative skip, count byte 0) x all "
-                          "indexed pixel vectors of <= 2 pixels over {0,1,4,5,7,255} (TLC BFS); enforced for <= 1 chunk per format; plus random indexed sprites",
+    rep.final = dict(rule=f"all sequences of <= {k} palette chunks from a 9-entry menu (new ranges, legacy packets, cumulative skip, count byte 0) x all "
+                          "indexed pixel vectors of <= 2 pixels over {0,1,2,3,4,5,7,255} (TLC BFS); enforced for <= 1 chunk per format; plus random indexed sprites",
                      trusted=TRUSTED, exhaustive=True)
 
 
@@ -428,26 +473,30 @@ CHECKS.update({"C09": (c09, "model_checking"), "C10": (c10, "model_checking"), "
 
 
 def corpus_stage(rep, work, b, tier):
-    """G4: real Aseprite files. An independent decoder (harness `decode`) turns each file into a chunk program; the library
-    loads the ORIGINAL bytes (hooks on); TLC derives the expected observation from the program and compares."""
-    files = work.path("corpus.files.ndjson")
-    write_cases(files, ({"id": c["id"], "file": c["file"]} for c in corpus_case_lines(10 ** 9)))
-    dec = work.path("corpus.decoded.ndjson")
-    r = subprocess.run([b, "decode", "--in", files, "--out", dec], capture_output=True, text=True)
-    if r.returncode != 0:
-        raise ToolError("decode failed: " + r.stderr[-400:])
-    cap = 120000 if tier == "quick" else 10 ** 9
-    sel = work.path("corpus.sel.ndjson")
-    n = 0
-    with open(sel, "w") as o:
-        for line in open(dec):
-            if len(line) <= cap:
-                o.write(line)
-                n += 1
-    os.remove(dec)
-    res = stage_cases(rep, work, b, sel, "corpus", shards=12, jvms=12)
-    rep.cov["corpus_files"] = n
-    rep.cov["corpus_files_fully_validated"] = res["outcomes"][0]
+    """G4: real Aseprite files. The library loads the ORIGINAL bytes (hooks on). For files up to a size cap the bytes travel in
+    the trace and TLC itself decodes them (AseParse!Decode, zlib via the AseZlib override), loads the decoded program and
+    compares the complete observation. Larger files (thorough tier) go through the harness' independent Rust decoder instead."""
+    cap_bytes = 6000 if tier == "quick" else 12000
+    small = work.path("corpus.bytes.ndjson")
+    big = work.path("corpus.files.ndjson")
+    ns = write_cases(small, ({"id": c["id"], "file": c["file"], "mode": "bytes", "meta": {"gen": "g4-corpus", "decoder": "TLA+ AseParse"}}
+                             for c in corpus_case_lines(10 ** 9) if os.path.getsize(c["file"]) <= cap_bytes))
+    res = stage_cases(rep, work, b, small, "corpus-bytes", shards=12, jvms=12)
+    rep.cov["corpus_files_decoded_by_tlc"] = ns
+    full = res["outcomes"][0]
+    if tier != "quick":
+        nb = write_cases(big, ({"id": c["id"], "file": c["file"]} for c in corpus_case_lines(10 ** 9) if os.path.getsize(c["file"]) > cap_bytes))
+        dec = work.path("corpus.decoded.ndjson")
+        r = subprocess.run([b, "decode", "--in", big, "--out", dec], capture_output=True, text=True)
+        if r.returncode != 0:
+            raise ToolError("decode failed: " + r.stderr[-400:])
+        res2 = stage_cases(rep, work, b, dec, "corpus-decoded", shards=12, jvms=12)
+        os.remove(dec)
+        rep.cov["corpus_files_decoded_by_harness"] = nb
+        full += res2["outcomes"][0]
+        for i in range(4):
+            res["outcomes"][i] += res2["outcomes"][i]
+    rep.cov["corpus_files_fully_validated"] = full
     return res
 
 
@@ -507,6 +556,29 @@ def mc_load_stage(rep, work, b, tier, depths=(32, 8)):
     return tot
 
 
+def predicted_faults_stage(rep, work, b, tier, seed, nseeds=None):
+    """Single-field faults whose outcome the specification PREDICTS from the bytes: seeds are encoded with stored zlib blocks,
+    every field of the encoder's field table is set to each boundary value, the patched bytes travel in the trace, and TLC
+    decodes them (AseParse!Decode), loads the decoded program (AseLoad) and demands: outcome ok -> the file loads and the
+    complete observation matches; err -> an error value; either/unknown -> no crash and, if it loads, a usable sprite."""
+    n = nseeds or (5 if tier == "quick" else 40)
+    seeds = work.path("pseeds.ndjson")
+    r = subprocess.run([b, "gen", "--profile", "default", "--seed", str(seed + 41), "--n", str(n), "--stored", "--out", seeds], capture_output=True, text=True)
+    if r.returncode != 0:
+        raise ToolError("gen --stored failed: " + r.stderr[-300:])
+    t2 = work.path("pseeds2.ndjson")
+    r = subprocess.run([b, "gen", "--profile", "tile", "--seed", str(seed + 42), "--n", str(max(2, n // 2)), "--stored", "--out", t2], capture_output=True, text=True)
+    with open(seeds, "a") as f:
+        f.write(open(t2).read())
+    ff = work.path("pfields.ndjson")
+    faults(b, seeds, ff, "fields", seed, mode="bytes")
+    res = batched_stage(rep, work, b, ff, "fields-predicted", batch=40000, env={"ASEVER_ALLOC_CAP": ALLOC_CAP})
+    rep.cov["predicted_field_faults"] = dict(zip(["must_load_exact_observation", "must_fail", "either", "unknown_or_unstructured"], res["outcomes"]))
+    if res["outcomes"][0] == 0 or res["outcomes"][1] == 0:
+        rep.error(f"predicted field faults: outcome classes not exercised {res['outcomes']}")
+    return res
+
+
 def huge_stage(rep, work, b, tier, seed):
     """Canvases up to 65535 x 65535 with tilesets of unusual tile sizes: nothing is rendered, but every dimension law, tile lookup
     and accessor is exercised at the top of the 16-bit range."""
@@ -519,6 +591,14 @@ def huge_stage(rep, work, b, tier, seed):
 
 def huge_extra(rep, work, tier, seed, b):
     huge_stage(rep, work, b, tier, seed)
+
+
+def bigcel_extra(rep, work, tier, seed, b):
+    """Cels with more than 65535 pixels whose last rows/columns are dragged onto a tiny canvas (row offsets beyond 16 bits)."""
+    cases = work.path("g3bigcel.ndjson")
+    gen(b, cases, "bigcel", seed + 51, 3 if tier == "quick" else 24)
+    res = stage_cases(rep, work, b, cases, "g3-bigcel", shards=3 if tier == "quick" else 8, jvms=8, xmx="6g")
+    need_ok(rep, res, "g3-bigcel", 0.99)
 
 
 def g3_check(pid, profile, nq, nt, rule, extra=None):
@@ -545,10 +625,10 @@ def corpus_cases():
 
 
 CHECKS.update({
-    "C02": (g3_check("C02", "render", 300, 6000,
+    "C02": (g3_check("C02", "render", 300, 6000, extra=bigcel_extra, rule=
                      "random/boundary sprites (canvas <= 6x6, <= 5 layers, all 19 modes, opacities, hidden layers/groups, linked and tilemap cels, "
                      "offsets incl. i16 extremes); every pixel of every frame image recomputed by TLC from AseRender.FrameImage"), "model_checking"),
-    "C06": (g3_check("C06", "cel", 400, 8000,
+    "C06": (g3_check("C06", "cel", 400, 8000, extra=bigcel_extra, rule=
                      "random/boundary sprites in the three pixel formats (sparse palettes, alpha < 255, all transparent-index positions, background "
                      "flag, raw/zlib/stored storage, links); every cel image and cel fact recomputed by TLC (AseRender.CelImage)"), "model_checking"),
     "C08": (g3_check("C08", "tile", 400, 8000, extra=huge_extra, rule=
@@ -878,6 +958,9 @@ def c15(rep, work, tier, seed):
                 m += 1
                 f.write(json.dumps({"id": f"{c['id']}|{name}#{j}", "mode": "full", "meta": {"gen": "g5-feature", "feature": name}, "prog": q}) + "\n")
     res2 = batched_stage(rep, work, b, sw_cases, "g3-hosts", batch=30000)
+    # byte level: every field of random sprites at every boundary value; TLC decodes the bytes and says which must be refused
+    resp = predicted_faults_stage(rep, work, b, tier, seed)
+    rep.cov["byte_level_must_fail_cases"] = resp["outcomes"][1]
     if res2["outcomes"][1] != m:
         rep.error(f"{m} feature switches generated but the specification classified {res2['outcomes'][1]} programs as must-fail")
     rep.cov["distinct_nontrivial"] = res["outcomes"][1] + res2["outcomes"][1]
@@ -959,6 +1042,11 @@ def inconsistencies(prog):
             return False
         ls[0].update(ltype=to, **kw)
     mk("tilemap_layer_missing_tileset", lambda q: lt(q, 2, 2, tileset=["777"]))
+    def small_missing(q):
+        ids = {str(c.get("id", "0")) for c in q["frames"][0]["chunks"] if c["k"] == "tileset"} if q["frames"] else set()
+        free = [str(i) for i in range(0, 4) if str(i) not in ids]
+        return lt(q, 2, 2, tileset=[free[0]]) if free else False
+    mk("tilemap_layer_small_missing_tileset_id", small_missing)
     mk("image_layer_becomes_tilemap_layer", lambda q: lt(q, 0, 2, tileset=["0"]))
     mk("tilemap_layer_becomes_image_layer", lambda q: lt(q, 2, 0))
     mk("image_layer_becomes_group", lambda q: lt(q, 0, 1))
@@ -1049,6 +1137,8 @@ def c04(rep, work, tier, seed):
         st = work.path("stress.ndjson")
         write_cases(st, stress_cases(tier))
         stage_cases(rep, work, b, st, f"stress-{prof}", env=env, per_case_timeout=900)
+        if prof == "dev":
+            predicted_faults_stage(rep, work, b, tier, seed)
         tot += sum(r1["outcomes"]) + sum(r2["outcomes"])
         if prof == "dev":
             rep.sample(first_cases(ff, 3, 100000)[-1].get("meta"))
@@ -1082,6 +1172,8 @@ def c05(rep, work, tier, seed):
     r0 = batched_stage(rep, work, b, inc, "inconsistencies", batch=30000, env=env)
     tot = mc_load_stage(rep, work, b, tier, depths=(32, 16, 8))
     huge_stage(rep, work, b, tier, seed)
+    predicted_faults_stage(rep, work, b, tier, seed)
+    palette_programs_stage(rep, work, b, tier)
     rep.sample(first_cases(inc, 4, 100000)[-1].get("meta"))
     # (b) the C04 campaign in observing mode: every mutant that still loads gets the complete accessor sweep
     seeds, ff, hv = fault_inputs(rep, work, b, tier, seed, "light", 8 if tier == "quick" else 40, 25000 if tier == "quick" else 600000)
@@ -1200,6 +1292,16 @@ def c16(rep, work, tier, seed):
     gen(b, cases, "default", seed + 11, 150 if tier == "quick" else 4000, twice=True)
     res = stage_cases(rep, work, b, cases, "load-twice")
     need_ok(rep, res, "load-twice", 0.95)
+    # out-of-contract files that still load must load the same way twice as well (e.g. anything resolved by map iteration order)
+    hosts = work.path("twice-hosts.ndjson")
+    gen(b, hosts, "tile", seed + 15, 25 if tier == "quick" else 400)
+    inc = work.path("twice-inconsistent.ndjson")
+    with open(inc, "w") as f:
+        for line in open(hosts):
+            c = json.loads(line)
+            for name, q in inconsistencies(c["prog"]):
+                f.write(json.dumps({"id": f"{c['id']}|{name}", "mode": "full", "twice": True, "meta": {"gen": "g5-inconsistency", "class": name}, "prog": q}) + "\n")
+    stage_cases(rep, work, b, inc, "load-twice-inconsistent")
     # (b) optimised build without overflow checks (wrapping arithmetic) against the unoptimised build with checks:
     #     same cases / same vectors through both binaries, merged pairwise, TLC demands equality
     rel = build("release")
